@@ -5,7 +5,10 @@ What it understands (and nothing else; anything else raises TranslateError, whic
   `e?`, `&e` `&mut e` `*e`, `!e`, `&& || == != < <= > >=`, `if c {..} else if .. else {..}`, `if let PAT = e {..} else {..}`,
   `match e { PAT [if guard] => body, ... }` on fieldless enums / enums with one payload / Option,
   `matches!(e, PAT)`, blocks `{ let x = e; if c { return e; } ...; tail }`, `let PAT = e else { return r };`,
-  `let x = match e { P => return r, Q => v };`, `return e`, struct literals `S { a, b }`, closures (only inside atoms).
+  `let x = match e { P => return r, Q => v };`, `return e`, struct literals `S { a, b }`, closures (only inside atoms),
+  or-patterns without bindings, `a + b` at nat, `e as T` (transparent), comparisons at nat and at types with a declared
+  equality (Spec.eqs), a statement `if c { .. }` whose block may be left through its end (the statements after it follow),
+  with Spec.try_transparent `e?` read as its Ok value, assignments listed as ignorable.
 
 Translation is driven by a per-target Spec:
   atoms       normalised source text of a sub-expression -> (gallina term, type)    (checked before structure)
@@ -411,13 +414,36 @@ class Parser:
             a = Node("bin", ("&&", a, b), lo, self.p)
         return a
 
-    def p_cmp(self, ns):
+    def p_add(self, ns):
+        lo = self.p
+        a = self.p_cast(ns)
+        while self.peek() == "+":
+            self.p += 1
+            b = self.p_cast(ns)
+            a = Node("bin", ("+", a, b), lo, self.p)
+        return a
+
+    def p_cast(self, ns):
+        """`e as T` (T a path): a numeric cast, transparent for the translation (all integers are nat / N)"""
         lo = self.p
         a = self.p_unary(ns)
+        while self.peek() == "as":
+            self.p += 1
+            if self.peekk() != "id":
+                raise TranslateError("cast to a non-path type")
+            self.p += 1
+            while self.peek() == "::":
+                self.p += 2
+            a = Node("paren", a, lo, self.p)
+        return a
+
+    def p_cmp(self, ns):
+        lo = self.p
+        a = self.p_add(ns)
         if self.peek() in ("==", "!=", "<", "<=", ">", ">="):
             op = self.peek()
             self.p += 1
-            b = self.p_unary(ns)
+            b = self.p_add(ns)
             a = Node("bin", (op, a, b), lo, self.p)
         return a
 
@@ -670,7 +696,7 @@ def parse_block(toks, lo, hi):
 
 class Spec:
     def __init__(self, atoms=None, tail_atoms=None, calls=None, ctors=None, fields=None, ignorable=None,
-                 methods=None, ret=None, tail_default=None, struct=None, eqs=None):
+                 methods=None, ret=None, tail_default=None, struct=None, eqs=None, try_transparent=False):
         self.atoms = {norm_text(k): v for k, v in (atoms or {}).items()}
         self.tail_atoms = {norm_text(k): v for k, v in (tail_atoms or {}).items()}
         self.calls = {norm_text(k): v for k, v in (calls or {}).items()}
@@ -682,6 +708,7 @@ class Spec:
         self.tail_default = tail_default
         self.struct = struct or {}
         self.eqs = eqs or {}          # type -> gallina boolean equality (for == / != at that type)
+        self.try_transparent = try_transparent   # `e?` stands for its Ok value (the Err exit is not part of the decision)
 
 
 IGNORABLE_DEFAULT = [r"^log::(trace|debug|info|warn|error)!", r"^assert(_eq|_ne)?!", r"^debug_assert(_eq|_ne)?!",
@@ -789,6 +816,10 @@ class Translator:
             else:
                 a, ta = self.expr(x, env)
                 b, tb = self.expr(y, env)
+            if op == "+":
+                if ta != "nat" or tb != "nat":
+                    raise TranslateError("+ at types %s, %s" % (ta, tb))
+                return "(%s + %s)%%nat" % (a, b), "nat"
             if op in ("&&", "||"):
                 self.want(ta, "bool", x)
                 self.want(tb, "bool", y)
@@ -869,6 +900,8 @@ class Translator:
                 vals = {f: self.expr(e, env) for f, e in fields}
                 return self.s.struct[name](vals)
             raise TranslateError("unknown struct literal %s" % name)
+        if k == "try" and self.s.try_transparent:
+            return self.expr(n.a, env)
         if k == "try":
             raise TranslateError("`?` outside an atom: %s" % text)
         raise TranslateError("unsupported expression %s: %s" % (k, text[:80]))
@@ -1067,6 +1100,8 @@ class Translator:
                 x, tx = clean(env)
                 return "(if %s then %s else %s)" % (c, x, r), self.join(tx, tr)
             raise TranslateError("statement with unknown effect: %s" % text[:80])
+        if s.kind == "assign" and self.ignorable(text):
+            return self.stmts(stmts, i + 1, tl, env, tail, blk, k)
         if s.kind == "assign":
             raise TranslateError("assignment statement: %s" % text[:80])
         if s.kind == "let":
